@@ -672,6 +672,17 @@ func buildConnectModel(p *Prog, a *connectAnchors) *connectModel {
 			if al, ok := x.X.(*ssa.Alloc); ok {
 				return fmt.Sprintf("local:%s@%p#f%d", al.Comment, al, x.Field)
 			}
+			/* A field of the struct a pointer parameter points at, when
+			that is part of the broker (us *side = &b.in: us.cancel). */
+			if pa, ok := x.X.(*ssa.Parameter); ok {
+				if av := r.Eval(pa); avPtr == av.K && strings.HasPrefix(av.S, "b.") {
+					if pt, ok := pa.Type().Underlying().(*types.Pointer); ok {
+						if st, ok := pt.Elem().Underlying().(*types.Struct); ok && x.Field < st.NumFields() {
+							return av.S + "." + st.Field(x.Field).Name()
+						}
+					}
+				}
+			}
 		}
 		return ""
 	}
